@@ -17,11 +17,11 @@
 (* The run is accepted iff it is a behaviour of CtxStack: every event must *)
 (* be the probe event of the one CtxStack action that the thread can take  *)
 (* next (after its silent wrapper steps), with the same status, the same   *)
-(* conversion mode, and the same context identity up to a bijection `m`    *)
-(* between the model's context ids and the observed objects.  The          *)
-(* bijection is global: an object observed by one thread can never be the  *)
-(* image of a context that the model created in another thread (isolation) *)
-(* nor of two different contexts of one thread (restoration / freshness).  *)
+(* conversion mode, and the same context identity: `m` maps the model's    *)
+(* context ids to the observed objects and must stay a function (a context *)
+(* that the model says is current again must be the very same object).     *)
+(* An object seen in place of the expected one that belongs to a context   *)
+(* of another thread is an isolation failure.                              *)
 (*                                                                         *)
 (* Verdicts are latched in `verdict` and printed from the always-true      *)
 (* reporting invariant Report; the harness reads them.                     *)
@@ -59,13 +59,14 @@ MidOf(cid)  == {p[1] : p \in {q \in m : q[2] = cid}}
 CidOf(mid)  == {p[2] : p \in {q \in m : q[1] = mid}}
 OwnerOf(mid) == mid \div 1000
 
-(* first disagreement between the model's event x and the logged event e; "" if none *)
+(* first disagreement between the model's event x and the logged event e; "" if none.
+   Identity: a model context that was observed before must be observed as the same object again (m is a
+   function; it need not be injective - the property does not demand that contexts are fresh objects).
+   If the object seen instead is one that the model created in another thread it is an isolation failure. *)
 Clause(x, e) ==
   IF x.n # e.n THEN "node"
   ELSE IF CidOf(x.id) # {} /\ CidOf(x.id) # {e.cid}
-         THEN (IF MidOf(e.cid) # {} /\ \E q \in MidOf(e.cid) : OwnerOf(q) # e.t THEN "isolation" ELSE "identity")
-  ELSE IF CidOf(x.id) = {} /\ MidOf(e.cid) # {}
-         THEN (IF \E q \in MidOf(e.cid) : OwnerOf(q) # e.t THEN "isolation" ELSE "not-fresh")
+         THEN (IF \E q \in MidOf(e.cid) : OwnerOf(q) # e.t THEN "isolation" ELSE "identity")
   ELSE IF x.st # e.st THEN "status"
   ELSE IF x.conv # e.conv THEN "mode"
   ELSE ""
